@@ -192,6 +192,32 @@ pub fn explore(run: &Run) -> (Stats, Vec<(u64, u64)>) {
             total = total.merge(a);
         }
     }
+    // classes on the encoding-length boundaries (a class lowered to bytes must not match inside a character),
+    // as an atom, captured inside a lookbehind, and after a character inside a lookbehind
+    {
+        let (classes, _) = crate::c12::boundary_classes();
+        let hays: Vec<Hay> = enumerate::all_hays(&[0x61, 0x7F, 0x80, 0xC2, 0x7FF, 0x800, 0x4E00, 0xFFFF, 0x10000, 0x10FFFF], 2);
+        let jobs: Vec<Node> = classes
+            .iter()
+            .flat_map(|c| {
+                vec![
+                    c.clone(),
+                    Node::Cat(vec![Node::look(true, false, Node::group(c.clone())), Node::Char(0x61)]),
+                    Node::look(true, false, Node::Cat(vec![Node::Dot, c.clone()])),
+                ]
+            })
+            .collect();
+        let a = jobs
+            .par_iter()
+            .fold(Acc::default, |mut acc, ast| {
+                for f in ["", "u"] {
+                    eval_one("boundary-classes", ast, Flags::parse(f), &hays, run, &mut acc);
+                }
+                acc
+            })
+            .reduce(Acc::default, Acc::merge);
+        total = total.merge(a);
+    }
     (total.st, total.digests)
 }
 
